@@ -146,6 +146,8 @@ class HexFile:
                     r1.add_data(r2.data)
                     self.regions.remove(r2)
                     change = True
+                    # The list changed, the remaining pairs are stale:
+                    break
                 elif r1.end_address > r2.address:
                     raise HexFileException("Overlapping regions")
 
